@@ -7,7 +7,7 @@ META = dict(
     level="other",
     engines="BA",
     files=FILES,
-    technique="compositional solver proof over symbolic bytes: (L1/L2) every entry of the 14 lookup tables against the GF(2^8) definitions with the tables as z3 arrays; (L3/L4) the real AES.encrypt / AES.decrypt / AES.__init__ executed on bit-vector proxies with the S-box, inverse S-box and the constant GF multiplications as uninterpreted functions, compared with FIPS-197 Cipher / EqInvCipher / KeyExpansion; (L5) inverse-round algebra; (L6) the real mode classes over an uninterpreted block cipher against SP 800-38A for every split into <= 3 calls; (L7/L8) block feeder and the registered adapter under CrossHair",
+    technique="compositional solver proof over symbolic bytes: (L1/L2) every entry of the 14 lookup tables against the GF(2^8) definitions with the tables as if-then-else trees over the symbolic 8-bit index; (L3/L4) the real AES.encrypt / AES.decrypt / AES.__init__ executed on bit-vector proxies with the S-box, inverse S-box and the constant GF multiplications as uninterpreted functions, compared with FIPS-197 Cipher / EqInvCipher / KeyExpansion; (L5) inverse-round algebra; (L6) the real mode classes over an uninterpreted block cipher against SP 800-38A for every split into <= 3 calls; (L7/L8) block feeder and the registered adapter under CrossHair",
     level_text="Solver verdict over all table indices (14 tables x 256 entries + 30 round constants), all blocks and all round-key schedules for 10 rounds (quick; 12/14 thorough), all 128-bit keys for the key schedule incl. the decryption schedule (192/256 thorough), all data/IV/counter values for the modes with data <= 40 bytes and every split into <= 3 calls, all data/key/IV bytes for the adapter with lengths 1..40: the bundled cipher equals FIPS-197, decryption inverts encryption, the modes equal SP 800-38A however the input is split, the adapter is zero-padded CBC with MAC = last block, decrypt(encrypt(d)) = d||0*, and results do not depend on earlier calls.",
     level_note="The link between the UF level (L3/L4) and the concrete tables is L1/L2 and nothing else: a changed table entry fails L1/L2, a changed index/shift/round structure fails L3/L4. Data longer than 40 bytes is covered by the chaining-state argument only. NIST FIPS-197 / SP 800-38A vectors are run concretely as a translator self-test. Trusted: z3 (BV + UF + arrays), the proxy class, the FIPS-197/SP 800-38A specifications as transcribed in this file.",
     explanation="Bounded symbolic verification with Engine B (real code objects on bit-vector proxies) and Engine A (CrossHair) for the feeder and adapter.",
@@ -83,11 +83,27 @@ def affine(z3, x):
     return x ^ rot(x, 1) ^ rot(x, 2) ^ rot(x, 3) ^ rot(x, 4) ^ z3.BitVecVal(0x63, 8)
 
 
-def array_of(z3, lst, width):
-    A = z3.K(z3.BitVecSort(8), z3.BitVecVal(0, width))
-    for i, v in enumerate(lst):
-        A = z3.Store(A, z3.BitVecVal(i, 8), z3.BitVecVal(v, width))
-    return A
+class array_of:
+    """constant table as a balanced if-then-else tree over the bits of an 8-bit index (pure QF_BV: bit-blasts to a
+    SAT problem over the index bits, so that a wrong entry is found as fast as a correct table is confirmed)"""
+
+    def __init__(self, z3, lst, width):
+        self.z3, self.vals, self.width = z3, list(lst)[:256] + [0] * (256 - len(lst)), width
+
+    def select(self, x):
+        z3 = self.z3
+
+        def tree(lo, n, bit):
+            if n == 1:
+                return z3.BitVecVal(self.vals[lo], self.width)
+            h = n // 2
+            return z3.If(z3.Extract(bit, bit, x) == 1, tree(lo + h, h, bit - 1), tree(lo, h, bit - 1))
+
+        return tree(0, 256, 7)
+
+
+def Select(T, x):
+    return T.select(x)
 
 
 class Spec:
@@ -266,14 +282,14 @@ def run_job(job):
     if kind == "L1":
         x = z3.BitVec("x", 8)
         Sa, Sia = array_of(z3, A.S, 8), array_of(z3, A.Si, 8)
-        sx = z3.Select(Sa, x)
+        sx = Select(Sa, x)
         # inverse of the affine map: b = rotl(s,1)^rotl(s,3)^rotl(s,6)^0x05
         inv = z3.RotateLeft(sx, 1) ^ z3.RotateLeft(sx, 3) ^ z3.RotateLeft(sx, 6) ^ z3.BitVecVal(0x05, 8)
         decide("S = affine(inv): x*inv(x) = 1", [x != 0], gfmul(z3, x, inv) == 1, dict(x=x))
         decide("S[0] = affine(0)", [x == 0], z3.And(inv == 0, sx == 0x63), dict(x=x))
         decide("affine(inv) = S", [], affine(z3, inv) == sx, dict(x=x))
-        decide("Si[S[x]] = x", [], z3.Select(Sia, sx) == x, dict(x=x))
-        decide("S[Si[x]] = x", [], z3.Select(Sa, z3.Select(Sia, x)) == x, dict(x=x))
+        decide("Si[S[x]] = x", [], Select(Sia, sx) == x, dict(x=x))
+        decide("S[Si[x]] = x", [], Select(Sa, Select(Sia, x)) == x, dict(x=x))
         decide("table lengths", [], z3.BoolVal(len(A.S) == 256 and len(A.Si) == 256 and all(0 <= v < 256 for v in list(A.S) + list(A.Si))))
     elif kind == "L2":
         t = job["table"]
@@ -288,25 +304,25 @@ def run_job(job):
             # the same through the solver for a symbolic index over the array
             i = z3.BitVec("i", 8)
             R = array_of(z3, A.rcon, 8)
-            decide("rcon[i+1] = xtime(rcon[i])", [z3.ULT(i, len(A.rcon) - 1)], z3.Select(R, i + 1) == xtime(z3, z3.Select(R, i)), dict(i=i))
+            decide("rcon[i+1] = xtime(rcon[i])", [z3.ULT(i, len(A.rcon) - 1)], Select(R, i + 1) == xtime(z3, Select(R, i)), dict(i=i))
             decide("rcon[0] = 1", [], z3.BoolVal(A.rcon[0] == 1 and ok))
         else:
             tab = getattr(A, t)
             T = array_of(z3, tab, 32)
             n = int(t[1]) - 1
             if t[0] == "T" and n < 4:
-                s = z3.Select(Sa, x)
+                s = Select(Sa, x)
                 parts = [gfmul_const(z3, s, 2), s, s, gfmul_const(z3, s, 3)]
                 k = n
             elif t[0] == "T":
-                s = z3.Select(Sia, x)
+                s = Select(Sia, x)
                 parts = [gfmul_const(z3, s, 14), gfmul_const(z3, s, 9), gfmul_const(z3, s, 13), gfmul_const(z3, s, 11)]
                 k = n - 4
             else:
                 parts = [gfmul_const(z3, x, 14), gfmul_const(z3, x, 9), gfmul_const(z3, x, 13), gfmul_const(z3, x, 11)]
                 k = n
             parts = parts[-k:] + parts[:-k] if k else parts
-            decide("%s[x]" % t, [], z3.Select(T, x) == z3.Concat(*parts), dict(x=x))
+            decide("%s[x]" % t, [], Select(T, x) == z3.Concat(*parts), dict(x=x))
             decide("%s length" % t, [], z3.BoolVal(len(tab) == 256))
     elif kind == "L5":
         sp = Spec(z3, None, None, lambda c, v: gfmul_const(z3, v, c))
